@@ -18,7 +18,8 @@ func init() {
 		title: "output is a deterministic function of program, selectors and input bytes",
 		run:   runC10,
 		decided: "absence of the three mechanisms by which one process can produce different bytes from the same inputs: (1) every range over a Go map in lang+cli is order-insensitive (its body only stores into another map under the ranged key, or collects the keys into a slice that is sorted by the total string order before any other use); (2) no package-level variable is written after initialisation except the four lazily built prototype singletons, each stored only inside its own accessor under `== nil`, and no other package-level variable has its address taken; cells of the process-global prototype tables are never handed out or written (C15/R1); (3) no function of the interpreter calls clock, random, environment or scheduling APIs or starts a goroutine." +
-			" No package-level variable holding a reference to mutable memory is ever handed out (returned, stored, passed on) except the prototype singletons by their accessors.",
+			" No package-level variable holding a reference to mutable memory is ever handed out (returned, stored, passed on) except the prototype singletons by their accessors." +
+			" Evaluation writes only the documented interpreter state; nothing outside the parser stores into a syntax-tree node.",
 		notDecided: "determinism of the trusted libraries (encoding/json sorts object keys: cited, not checked).",
 	})
 }
